@@ -530,3 +530,575 @@ Proof.
     pose proof (newest_In _ _ Hnw) as Hin. destruct (node_key_state _ _ _ _ _ Ok Hf Hin) as [Hid _].
     exists n. rewrite Hid. auto.
 Qed.
+
+(* what being known to a participant with well-formed histories gives about a state *)
+Definition entry_good (st : sstate) (p : lparams) (s : state) : Prop :=
+  st_id s = lp_id p /\ state_ok p s = true /\ 1 <= lp_cd p
+  /\ (if bytes_eqb (st_id s) (rootid st)
+      then p = s_root st /\ alloc_sum (st_alloc s) = map zsum (s_agree st)
+           /\ al_assets (st_alloc s) = s_assets st
+      else al_locked (st_alloc s) = [] /\ lp_ledger p = false).
+Lemma known_good st k p s : nodes_ok st k -> known st k p s -> entry_good st p s.
+Proof.
+  intros Ok (n & Hf & -> & Hin). destruct (node_key_state _ _ _ _ _ Ok Hf Hin) as [_ Hs].
+  destruct (Ok _ _ Hf) as (K1 & K2 & K3 & K4 & K5 & K6). unfold entry_good.
+  split; [congruence|]. split; [exact Hs|]. split; [exact K3|].
+  destruct (bytes_eqb (st_id s) (rootid st)).
+  - destruct K6 as [K6 K7]. auto.
+  - destruct K6 as [K6 K7]. auto.
+Qed.
+
+Lemma step_presented st e st' : step_spec st e st' -> nodes_ok st 0 -> nodes_ok st 1 ->
+  forall o, step_op st e = Some o -> exists k, nodes_ok st k /\ presented st k o.
+Proof.
+  intros H Ok0 Ok1 o Ho.
+  assert (Oki : forall i, nodes_ok st i).
+  { intros i c n. unfold get_party. destruct (i =? 0); [apply Ok0|apply Ok1]. }
+  destruct e; cbn [step_op] in Ho; try discriminate; cbn [step_spec] in H.
+  - injection Ho as <-. exists 0. split; [exact Ok0|exact I].
+  - injection Ho as <-. destruct H as (_ & Hk & Hks & _). exists i. split; [apply Oki|].
+    unfold register_op, presented. cbn [fst snd]. rewrite tx_st_signed. split; [reflexivity|].
+    split; [apply known_signed_known; exact Hk|].
+    intros e He. apply in_map_iff in He as [[p s] [<- He]]. cbn [fst snd]. rewrite tx_st_signed.
+    rewrite forallb_forall in Hks. apply known_signed_known. apply (Hks _ He).
+  - destruct H as (_ & tr & Htr & _ & _). rewrite Htr in Ho. injection Ho as <-. exists i. split; [apply Oki|].
+    apply tree_presented; [apply Oki|]. apply tree_by_newest. exact Htr.
+  - destruct H as (_ & tr & Htr & _ & _). rewrite Htr in Ho. injection Ho as <-. exists i. split; [apply Oki|].
+    unfold conclude_op.
+    destruct (st_final (fst tr) && _ && _); [|exact I]. unfold presented. rewrite tx_st_signed.
+    split; [reflexivity|].
+    destruct (tree_by_newest _ _ _ Htr) as [[rn [Hr Hn]] _].
+    pose proof (newest_In _ _ Hn) as Hin. destruct (node_key_state _ _ _ _ _ (Oki i) Hr Hin) as [Hid _].
+    exists rn. rewrite Hid. split; [exact Hr|]. split; [|exact Hin].
+    destruct (Oki i _ _ Hr) as (_ & _ & _ & _ & _ & K6). unfold rootid in K6 at 1. rewrite bytes_eqb_refl in K6.
+    symmetry. apply K6.
+  - injection Ho as <-. exists 0. split; [exact Ok0|exact I].
+  - injection Ho as <-. destruct H as (_ & Hk & Hks & _). exists h. split; [apply Oki|].
+    unfold presented. split; [reflexivity|]. split; [apply known_signed_known; exact Hk|].
+    intros e He. rewrite forallb_forall in Hks. apply known_signed_known. apply (Hks _ He).
+  - injection Ho as <-. exists 0. split; [exact Ok0|exact I].
+  - injection Ho as <-. destruct H as (_ & Hk & _). exists h. split; [apply Oki|].
+    unfold presented. split; [reflexivity|]. apply known_signed_known. exact Hk.
+  - injection Ho as <-. exists 0. split; [exact Ok0|exact I].
+  - injection Ho as <-. exists 0. split; [exact Ok0|exact I].
+Qed.
+
+(* ================= invariants of the dispute table (all runs) ================= *)
+Definition disp_entry_ok (st : sstate) (now : N) (id : bytes) (d : dispute) : Prop :=
+  st_id (d_state d) = id
+  /\ (d_phase d = DConcluded -> d_timeout d <= now)
+  /\ entry_good st (d_params d) (d_state d).
+Definition disp_ok_at (st : sstate) (now : N) (D : disputes) : Prop :=
+  forall id d, bfind D id = Some d -> disp_entry_ok st now id d.
+Definition disp_ok (st : sstate) : Prop := disp_ok_at st (l_clock (s_L st)) (l_disp (s_L st)).
+
+Lemma entry_good_static st st' p s : same_static st' st -> entry_good st p s -> entry_good st' p s.
+Proof. intros (Hr & Ha & Hg & _). unfold entry_good, rootid. rewrite Hr, Ha, Hg. auto. Qed.
+
+Lemma disp_ok_register st now D p t m D' evs out fuel :
+  disp_ok_at st now D ->
+  entry_good st p (tx_st t) -> (forall e, In e m -> entry_good st (fst e) (tx_st (snd e))) ->
+  register_rec fuel now D p t m = ROk (D', evs, out) -> disp_ok_at st now D'.
+Proof.
+  intros Hd Hp Hm Hr.
+  apply (register_rec_preserves now m (disp_ok_at st now) (fun p t => entry_good st p (tx_st t)))
+    with (fuel := fuel) (D := D) (p := p) (t := t) (evs := evs) (out := out); auto.
+  clear. intros D p t D' evs Hg Hd Hs.
+  destruct (register_single_cases _ _ _ _ _ _ Hs) as [_ [(-> & _)|(_ & to & -> & _ & _)]]; [exact Hd|].
+  intros id d. rewrite bfind_bput. destruct (bytes_eqb id (st_id (tx_st t))) eqn:Ei; [|apply Hd].
+  apply bytes_eqb_eq in Ei. subst id. intro X. injection X as <-. unfold disp_entry_ok. cbn [d_state d_phase d_params].
+  split; [reflexivity|]. split; [discriminate|exact Hg].
+Qed.
+
+Definition op_good (st : sstate) (o : lop) : Prop :=
+  match o with
+  | LRegister p t m => entry_good st p (tx_st t) /\ forall e, In e m -> entry_good st (fst e) (tx_st (snd e))
+  | LConcludeFinal p t => entry_good st p (tx_st t)
+  | LProgress _ _ _ _ _ => False
+  | _ => True
+  end.
+
+Lemma upto_disp_ok st now D D' : upto now D D' -> disp_ok_at st now D -> disp_ok_at st now D'.
+Proof.
+  intros U Hd id d' Hf. specialize (U id). rewrite Hf in U. destruct U as (d & Ed & P1 & S1 & T1 & Ph).
+  destruct (Hd _ _ Ed) as (A1 & A2 & A3). unfold disp_entry_ok. rewrite P1, S1, T1.
+  split; [exact A1|]. split; [|exact A3].
+  intro C. destruct Ph as [Ph|[_ Le]]; [apply A2; congruence|exact Le].
+Qed.
+
+Lemma disp_ok_ledger st L o :
+  disp_ok_at st (l_clock L) (l_disp L) -> op_good st o ->
+  disp_ok_at st (l_clock (fst (step L o))) (l_disp (fst (step L o))).
+Proof.
+  intros Hd Hg. destruct o; cbn [op_good] in Hg.
+  - destruct (deposit_disp L p assets idx from amts) as [-> ->]. exact Hd.
+  - destruct Hg as [Hp Hm].
+    destruct (register_step L p t subs) as [->|(D & evs & out & Hr & _ & ->)]; [exact Hd|].
+    cbn [with_disp l_clock l_disp]. eapply disp_ok_register; eauto.
+  - contradiction.
+  - destruct (conclude_step' L p s subs) as [->|[evs E]]; [exact Hd|].
+    destruct (conclude_step _ _ _ _ _ _ E) as (_ & _ & D & out & Hc & -> & _ & -> & _).
+    destruct (conclude_rec_spec _ _ _ _ _ _ _ _ Hc) as (U & _). eapply upto_disp_ok; eauto.
+  - destruct (concludefinal_step L p t) as [->|H]; [exact Hd|]. cbv zeta in H.
+    destruct H as (_ & _ & _ & _ & _ & _ & ->). cbn [l_clock l_disp].
+    intros id d. rewrite bfind_bput. destruct (bytes_eqb id (lp_id p)) eqn:Ei; [|apply Hd].
+    apply bytes_eqb_eq in Ei. subst id. intro X. injection X as <-. unfold disp_entry_ok. cbn [d_state d_phase d_params d_timeout].
+    destruct Hg as (G1 & G2). split; [exact G1|]. split; [intros _; lia|]. split; auto.
+  - destruct (withdraw_disp L p idx signer to) as [-> ->]. exact Hd.
+  - rewrite tick_step. cbn [l_clock l_disp]. intros id d Hf. destruct (Hd _ _ Hf) as (A1 & A2 & A3).
+    split; [exact A1|]. split; [|exact A3]. intro C. specialize (A2 C). lia.
+Qed.
+
+Lemma presented_good st k o : nodes_ok st k -> presented st k o -> (forall p a b c d, o <> LProgress p a b c d) -> op_good st o.
+Proof.
+  intros Ok Hp Np. destruct o; cbn [presented op_good] in *; auto.
+  - destruct Hp as (_ & Hk & Hm). split; [eapply known_good; eauto|]. intros e He. eapply known_good; eauto.
+  - exfalso. eapply Np. reflexivity.
+  - destruct Hp as (_ & Hk). eapply known_good; eauto.
+Qed.
+
+Lemma step_op_not_progress st e o : step_op st e = Some o -> forall p a b c d, o <> LProgress p a b c d.
+Proof.
+  destruct e; cbn [step_op]; intros H; try discriminate; try (injection H as <-; discriminate).
+  - destruct (newest_tree st i); [|discriminate]. injection H as <-. discriminate.
+  - destruct (newest_tree st i); [|discriminate]. injection H as <-. unfold conclude_op.
+    destruct (_ && _ && _); discriminate.
+Qed.
+
+Lemma disp_ok_static st st' now D : same_static st' st -> disp_ok_at st now D -> disp_ok_at st' now D.
+Proof.
+  intros St Hd id d Hf. destruct (Hd _ _ Hf) as (A1 & A2 & A3). split; [exact A1|]. split; [exact A2|].
+  eapply entry_good_static; eauto.
+Qed.
+
+Lemma disp_ok_step st e st' : disp_ok st -> nodes_ok st 0 -> nodes_ok st 1 -> step_spec st e st' -> disp_ok st'.
+Proof.
+  intros Hd Ok0 Ok1 H. unfold disp_ok. rewrite (step_ledger _ _ _ H).
+  apply (disp_ok_static _ _ _ _ (step_static _ _ _ H)).
+  destruct (step_op st e) as [o|] eqn:Eo; [|exact Hd].
+  destruct (step_presented _ _ _ H Ok0 Ok1 _ Eo) as (k & Okk & Hp).
+  apply disp_ok_ledger; [exact Hd|]. eapply presented_good; eauto. eapply step_op_not_progress; eauto.
+Qed.
+
+(* ================= the honest participant against the adversary (C04) ================= *)
+Definition adv_event (h : N) (e : sevent) : bool :=
+  match e with
+  | SAdvRegister h' _ _ | SAdvConcludeFinal h' _ | SAdvWithdraw h' => h' =? h
+  | SAdvConclude _ _ | STick | SFund _ => true
+  | _ => match honest_actor e with Some i => i =? h | None => false end
+  end.
+Lemma adversarial_run_forall h es : adversarial_run h es = forallb (adv_event h) es.
+Proof. reflexivity. Qed.
+
+Lemma step_presented_h st e st' h : step_spec st e st' -> adv_event h e = true -> nodes_ok st h ->
+  forall o, step_op st e = Some o -> presented st h o.
+Proof.
+  intros H Ha Ok o Ho.
+  destruct e; cbn [step_op] in Ho; try discriminate; cbn [step_spec] in H; cbn [adv_event honest_actor] in Ha;
+    try (apply N.eqb_eq in Ha; subst); try (injection Ho as <-; exact I).
+  - injection Ho as <-. destruct H as (_ & Hk & Hks & _).
+    unfold register_op, presented. cbn [fst snd]. rewrite tx_st_signed. split; [reflexivity|].
+    split; [apply known_signed_known; exact Hk|].
+    intros e He. apply in_map_iff in He as [[p s] [<- He]]. cbn [fst snd]. rewrite tx_st_signed.
+    rewrite forallb_forall in Hks. apply known_signed_known. apply (Hks _ He).
+  - destruct H as (_ & tr & Htr & _ & _). rewrite Htr in Ho. injection Ho as <-.
+    apply tree_presented; [exact Ok|]. apply tree_by_newest. exact Htr.
+  - destruct H as (_ & tr & Htr & _ & _). rewrite Htr in Ho. injection Ho as <-. unfold conclude_op.
+    destruct (st_final (fst tr) && _ && _); [|exact I]. unfold presented. rewrite tx_st_signed.
+    split; [reflexivity|].
+    destruct (tree_by_newest _ _ _ Htr) as [[rn [Hr Hn]] _].
+    pose proof (newest_In _ _ Hn) as Hin. destruct (node_key_state _ _ _ _ _ Ok Hr Hin) as [Hid _].
+    exists rn. rewrite Hid. split; [exact Hr|]. split; [|exact Hin].
+    destruct (Ok _ _ Hr) as (_ & _ & _ & _ & _ & K6). unfold rootid in K6 at 1. rewrite bytes_eqb_refl in K6.
+    symmetry. apply K6.
+  - injection Ho as <-. destruct H as (_ & Hk & Hks & _).
+    unfold presented. split; [reflexivity|]. split; [apply known_signed_known; exact Hk|].
+    intros e He. rewrite forallb_forall in Hks. apply known_signed_known. apply (Hks _ He).
+  - injection Ho as <-. destruct H as (_ & Hk & _).
+    unfold presented. split; [reflexivity|]. apply known_signed_known. exact Hk.
+Qed.
+
+(* what a participant knows only grows *)
+Lemma known_step st e st' k p s : nodes_ok st k -> step_spec st e st' -> known st k p s -> known st' k p s.
+Proof.
+  intros Ok H (n & Hf & Hp & Hin). unfold known.
+  destruct (is_local e) eqn:El.
+  2:{ rewrite (step_nodes_ledger _ _ _ k H El). exists n. auto. }
+  destruct e; try discriminate El; cbn [step_spec] in H.
+  - destruct H as (_ & Hnone & _ & _ & _ & _ & _ & _ & _ & ->).
+    destruct (Bool.bool_dec (side i) (side k)) as [E|E].
+    2:{ rewrite (get_set_other _ _ _ _ E). exists n. auto. }
+    rewrite (get_set_side _ _ _ _ E). cbn [upd_node pt_nodes]. rewrite bfind_bput.
+    destruct (bytes_eqb (st_id s) (lp_id p0)) eqn:Ec.
+    + apply bytes_eqb_eq in Ec. rewrite (get_party_side st i k E), <- Ec, Hf in Hnone. discriminate.
+    + exists n. rewrite (get_party_side st i k E). auto.
+  - destruct H as (_ & n0 & cur & rest & Hf0 & Hh & _ & _ & _ & _ & ->).
+    destruct (Bool.bool_dec (side i) (side k)) as [E|E].
+    2:{ rewrite (get_set_other _ _ _ _ E). exists n. auto. }
+    rewrite (get_set_side _ _ _ _ E). cbn [upd_node pt_nodes]. rewrite bfind_bput.
+    rewrite (get_party_side st i k E) in *.
+    destruct (bytes_eqb (st_id s) (st_id s0)) eqn:Ec.
+    + apply bytes_eqb_eq in Ec. rewrite <- Ec, Hf in Hf0. injection Hf0 as <-.
+      eexists. split; [reflexivity|]. cbn [n_params n_hist]. split; [exact Hp|right; exact Hin].
+    + exists n. auto.
+  - destruct H as (_ & n0 & Hf0 & ->).
+    destruct (Bool.bool_dec (side i) (side k)) as [E|E].
+    2:{ rewrite (get_set_other _ _ _ _ E). exists n. auto. }
+    rewrite (get_set_side _ _ _ _ E). cbn [upd_node pt_nodes]. rewrite bfind_bput.
+    rewrite (get_party_side st i k E) in *.
+    destruct (bytes_eqb (st_id s) c) eqn:Ec.
+    + apply bytes_eqb_eq in Ec. rewrite <- Ec, Hf in Hf0. injection Hf0 as <-.
+      eexists. split; [reflexivity|]. cbn [n_params n_hist]. auto.
+    + exists n. auto.
+Qed.
+
+(* I2: everything registered is known to the honest participant *)
+Definition disp_known_at (st : sstate) (h : N) (D : disputes) : Prop :=
+  forall id d, bfind D id = Some d -> known st h (d_params d) (d_state d).
+Definition disp_known (st : sstate) (h : N) : Prop := disp_known_at st h (l_disp (s_L st)).
+
+Lemma disp_known_ledger st h L o :
+  disp_known_at st h (l_disp L) -> presented st h o -> (forall p a b c d, o <> LProgress p a b c d) ->
+  disp_known_at st h (l_disp (fst (step L o))).
+Proof.
+  intros Hd Hp Np. destruct o; cbn [presented] in Hp.
+  - destruct (deposit_disp L p assets idx from amts) as [-> _]. exact Hd.
+  - destruct Hp as (_ & Hk & Hm).
+    destruct (register_step L p t subs) as [->|(D & evs & out & Hr & _ & ->)]; [exact Hd|].
+    cbn [with_disp l_disp].
+    apply (register_rec_preserves (l_clock L) subs (disp_known_at st h) (fun p t => known st h p (tx_st t)))
+      with (fuel := S (length subs)) (D := l_disp L) (p := p) (t := t) (evs := evs) (out := out); auto.
+    clear. intros D p t D' evs Hg Hd Hs.
+    destruct (register_single_cases _ _ _ _ _ _ Hs) as [_ [(-> & _)|(_ & to & -> & _ & _)]]; [exact Hd|].
+    intros id d. rewrite bfind_bput. destruct (bytes_eqb id (st_id (tx_st t))); [|apply Hd].
+    intro X. injection X as <-. exact Hg.
+  - exfalso. eapply Np. reflexivity.
+  - destruct (conclude_step' L p s subs) as [->|[evs E]]; [exact Hd|].
+    destruct (conclude_step _ _ _ _ _ _ E) as (_ & _ & D & out & Hc & -> & _).
+    destruct (conclude_rec_spec _ _ _ _ _ _ _ _ Hc) as (U & _).
+    intros id d' Hf. specialize (U id). rewrite Hf in U. destruct U as (d & Ed & P1 & S1 & _).
+    rewrite P1, S1. apply (Hd _ _ Ed).
+  - destruct Hp as (_ & Hk).
+    destruct (concludefinal_step L p t) as [->|H]; [exact Hd|]. cbv zeta in H.
+    destruct H as (_ & _ & _ & _ & _ & _ & ->). cbn [l_disp].
+    intros id d. rewrite bfind_bput. destruct (bytes_eqb id (lp_id p)); [|apply Hd].
+    intro X. injection X as <-. exact Hk.
+  - destruct (withdraw_disp L p idx signer to) as [-> _]. exact Hd.
+  - exact Hd.
+Qed.
+
+Lemma disp_known_step st e st' h :
+  disp_known st h -> nodes_ok st h -> adv_event h e = true -> step_spec st e st' -> disp_known st' h.
+Proof.
+  intros Hd Ok Ha H. unfold disp_known. rewrite (step_ledger _ _ _ H).
+  assert (Mono : forall D, disp_known_at st h D -> disp_known_at st' h D).
+  { intros D HD id d Hf. eapply known_step; eauto. }
+  apply Mono. destruct (step_op st e) as [o|] eqn:Eo; [|exact Hd].
+  apply disp_known_ledger; [exact Hd| |eapply step_op_not_progress; eauto].
+  eapply step_presented_h; eauto.
+Qed.
+
+(* I3: when the refutation window of a channel that matters is closed, the newest state is registered and
+   the history cannot grow any more *)
+Definition no_more (n : node) (t : state) : Prop := n_frozen n = true \/ st_final t = true.
+Definition finished_at (st : sstate) (h : N) (now : N) (D : disputes) : Prop :=
+  forall c n d t, bfind (pt_nodes (get_party st h)) c = Some n -> relevant st h c = true ->
+    bfind D c = Some d -> d_timeout d <= now -> newest n = Some t -> d_state d = t /\ no_more n t.
+Definition finished (st : sstate) (h : N) : Prop := finished_at st h (l_clock (s_L st)) (l_disp (s_L st)).
+
+Lemma bfind_In {A} (m : bmap A) k v : bfind m k = Some v -> In (k, v) m.
+Proof.
+  induction m as [|[k' v'] m IH]; cbn [bfind]; [discriminate|].
+  destruct (bytes_eqb k k') eqn:E.
+  - apply bytes_eqb_eq in E. subst. intro H. injection H as <-. left. reflexivity.
+  - intro H. right. apply IH. exact H.
+Qed.
+
+Lemma newest_head n t : newest n = Some t -> exists r, n_hist n = t :: r.
+Proof. unfold newest. destruct (n_hist n) as [|x r]; cbn [hd_error]; [discriminate|]. intro H. injection H as <-. eauto. Qed.
+
+Lemma final_known_is_newest st h c n s t :
+  nodes_ok st h -> bfind (pt_nodes (get_party st h)) c = Some n -> In s (n_hist n) -> st_final s = true ->
+  newest n = Some t -> s = t.
+Proof.
+  intros Ok Hf Hin Fin Hn. destruct (newest_head _ _ Hn) as [r Hr]. destruct (Ok _ _ Hf) as (_ & K2 & _).
+  rewrite Hr in K2, Hin. eapply chain_final_head; eauto.
+Qed.
+
+Lemma finished_register st h now D p t D' evs :
+  nodes_ok st h -> known st h p (tx_st t) -> finished_at st h now D ->
+  register_single now D p t = ROk (D', evs) -> finished_at st h now D'.
+Proof.
+  intros Ok Hk Hfin Hs.
+  destruct (register_single_cases _ _ _ _ _ _ Hs) as [_ [(-> & _)|(_ & to & -> & _ & Hto)]]; [exact Hfin|].
+  intros c n d x Hf Hrel Hd Hle Hn. rewrite bfind_bput in Hd.
+  destruct (bytes_eqb c (st_id (tx_st t))) eqn:Ec; [|eapply Hfin; eauto].
+  apply bytes_eqb_eq in Ec. subst c. injection Hd as <-. cbn [d_state d_timeout] in *.
+  destruct (known_good _ _ _ _ Ok Hk) as (_ & _ & Hcd & _).
+  destruct Hk as (n' & Hf' & _ & Hin). rewrite Hf in Hf'. injection Hf' as <-.
+  assert (Fin : st_final (tx_st t) = true).
+  { destruct (st_final (tx_st t)) eqn:F; [reflexivity|exfalso].
+    destruct Hto as [(_ & ->)|(d0 & _ & _ & _ & _ & Hlt & ->)].
+    - unfold new_timeout in Hle. rewrite F in Hle. lia.
+    - lia. }
+  pose proof (final_known_is_newest _ _ _ _ _ _ Ok Hf Hin Fin Hn) as <-.
+  split; [reflexivity|right; exact Fin].
+Qed.
+
+Lemma finished_ledger st h L o :
+  nodes_ok st h -> finished_at st h (l_clock L) (l_disp L) -> presented st h o ->
+  (forall p a b c d, o <> LProgress p a b c d) ->
+  (forall n, o = LTick n -> n = 1 /\ forall c nd, bfind (pt_nodes (get_party st h)) c = Some nd ->
+       relevant st h c = true -> window_closing L c = true -> settled_business L nd = true) ->
+  finished_at st h (l_clock (fst (step L o))) (l_disp (fst (step L o))).
+Proof.
+  intros Ok Hfin Hp Np Htick. destruct o; cbn [presented] in Hp.
+  - destruct (deposit_disp L p assets idx from amts) as [-> ->]. exact Hfin.
+  - destruct Hp as (_ & Hk & Hm).
+    destruct (register_step L p t subs) as [->|(D & evs & out & Hr & _ & ->)]; [exact Hfin|].
+    cbn [with_disp l_disp l_clock].
+    apply (register_rec_preserves (l_clock L) subs (finished_at st h (l_clock L)) (fun p t => known st h p (tx_st t)))
+      with (fuel := S (length subs)) (D := l_disp L) (p := p) (t := t) (evs := evs) (out := out); auto.
+    intros D0 p0 t0 D' evs0 Hg Hd Hs. eapply finished_register; eauto.
+  - exfalso. eapply Np. reflexivity.
+  - destruct (conclude_step' L p s subs) as [->|[evs E]]; [exact Hfin|].
+    destruct (conclude_step _ _ _ _ _ _ E) as (_ & _ & D & out & Hc & -> & _ & -> & _).
+    destruct (conclude_rec_spec _ _ _ _ _ _ _ _ Hc) as (U & _).
+    intros c n d' x Hf Hrel Hd Hle Hn. specialize (U c). rewrite Hd in U. destruct U as (d & Ed & _ & S1 & T1 & _).
+    rewrite S1. eapply Hfin; eauto. rewrite <- T1. exact Hle.
+  - destruct Hp as (_ & Hk).
+    destruct (concludefinal_step L p t) as [->|H]; [exact Hfin|]. cbv zeta in H.
+    destruct H as (_ & Hok & Fin & _ & _ & _ & ->). cbn [l_disp l_clock].
+    intros c n d x Hf Hrel Hd Hle Hn. rewrite bfind_bput in Hd.
+    destruct (bytes_eqb c (lp_id p)) eqn:Ec; [|eapply Hfin; eauto].
+    apply bytes_eqb_eq in Ec. subst c. injection Hd as <-. cbn [d_state].
+    destruct (known_good _ _ _ _ Ok Hk) as (Hid & _).
+    destruct Hk as (n' & Hf' & _ & Hin). rewrite Hid, Hf in Hf'. injection Hf' as <-.
+    pose proof (final_known_is_newest _ _ _ _ _ _ Ok Hf Hin Fin Hn) as <-.
+    split; [reflexivity|right; exact Fin].
+  - destruct (withdraw_disp L p idx signer to) as [-> ->]. exact Hfin.
+  - destruct (Htick n eq_refl) as [-> Hg]. rewrite tick_step. cbn [l_clock l_disp].
+    intros c nd d x Hf Hrel Hd Hle Hn.
+    assert (W : window_closing L c = true).
+    { unfold window_closing. rewrite Hd. apply N.leb_le. exact Hle. }
+    specialize (Hg _ _ Hf Hrel W). unfold settled_business in Hg. rewrite Hn in Hg.
+    destruct (newest_head _ _ Hn) as [r Hr].
+    assert (Hin : In x (n_hist nd)) by (rewrite Hr; left; reflexivity).
+    destruct (node_key_state _ _ _ _ _ Ok Hf Hin) as [Hid _]. rewrite Hid, Hd in Hg.
+    apply andb_true_iff in Hg as [G1 G2]. apply state_equal_eq in G1. split; [exact G1|left; exact G2].
+Qed.
+
+Lemma relevant_nodes st st' h c :
+  rootid st' = rootid st ->
+  option_map newest (bfind (pt_nodes (get_party st' h)) (rootid st)) =
+  option_map newest (bfind (pt_nodes (get_party st h)) (rootid st)) ->
+  relevant st' h c = relevant st h c.
+Proof.
+  intros Hr Hn. unfold relevant. rewrite Hr.
+  destruct (bfind (pt_nodes (get_party st' h)) (rootid st)) as [a|], (bfind (pt_nodes (get_party st h)) (rootid st)) as [b|];
+    cbn [option_map] in Hn; try discriminate; [|reflexivity].
+  injection Hn as ->. reflexivity.
+Qed.
+
+Lemma locks_exists s c : locks s c = true -> exists l, In l (al_locked (st_alloc s)) /\ sa_id l = c.
+Proof.
+  unfold locks. intro H. apply existsb_exists in H as [l [Hl E]]. apply bytes_eqb_eq in E. eauto.
+Qed.
+
+Lemma finished_step st e st' h :
+  finished st h -> nodes_ok st h -> disp_ok st -> disp_known st h -> adv_event h e = true ->
+  step_spec st e st' -> finished st' h.
+Proof.
+  intros Hfin Ok Hdo Hdk Ha H. unfold finished. rewrite (step_ledger _ _ _ H).
+  destruct (is_local e) eqn:El.
+  2:{ (* ledger steps: nodes and relevance unchanged *)
+    assert (Hn : pt_nodes (get_party st' h) = pt_nodes (get_party st h)) by (eapply step_nodes_ledger; eauto).
+    assert (Hr : rootid st' = rootid st) by (unfold rootid; destruct (step_static _ _ _ H) as (-> & _); reflexivity).
+    assert (Tr : forall now D, finished_at st h now D -> finished_at st' h now D).
+    { intros now D HD c n d t Hf Hrel. rewrite Hn in Hf.
+      rewrite (relevant_nodes st st' h c Hr) in Hrel by (rewrite Hn; reflexivity). eapply HD; eauto. }
+    apply Tr. destruct (step_op st e) as [o|] eqn:Eo; [|exact Hfin].
+    apply finished_ledger; auto.
+    - eapply step_presented_h; eauto.
+    - eapply step_op_not_progress; eauto.
+    - intros n ->. destruct e; cbn [step_op] in Eo; try discriminate;
+        try (destruct (newest_tree st i); discriminate);
+        try (destruct (newest_tree st i); [injection Eo as Eo; unfold conclude_op in Eo; destruct (_ && _ && _); discriminate|discriminate]).
+      injection Eo as <-. split; [reflexivity|]. cbn [step_spec] in H. destruct H as (Ht & _).
+      intros c nd Hf Hrel Hw. unfold tick_ok in Ht. apply andb_true_iff in Ht as [T0 T1].
+      assert (Th : party_tick_ok st h = true).
+      { destruct (h =? 0) eqn:E0.
+        - apply N.eqb_eq in E0. subst h. exact T0.
+        - rewrite <- T1. unfold party_tick_ok, relevant.
+          rewrite (get_party_side st h 1) by (unfold side; rewrite E0; reflexivity). reflexivity. }
+      unfold party_tick_ok in Th. rewrite forallb_forall in Th. specialize (Th _ (bfind_In _ _ _ Hf)).
+      cbn [fst snd] in Th. rewrite Hrel, Hw in Th. cbn [negb orb] in Th. exact Th. }
+  assert (HL : match step_op st e with Some o => fst (step (s_L st) o) | None => s_L st end = s_L st).
+  { destruct e; try discriminate El; reflexivity. }
+  rewrite HL.
+  assert (Hroot : rootid st' = rootid st) by (unfold rootid; destruct (step_static _ _ _ H) as (-> & _); reflexivity).
+  destruct e; try discriminate El; cbn [step_spec] in H; cbn [adv_event honest_actor] in Ha; apply N.eqb_eq in Ha; subst i.
+  - (* open *)
+    destruct H as (_ & Hnone & _ & _ & Hl & _ & _ & _ & _ & ->).
+    intros c n d t Hf Hrel Hd Hle Hn. rewrite get_set_same in Hf. cbn [upd_node pt_nodes] in Hf.
+    rewrite bfind_bput in Hf. destruct (bytes_eqb c (lp_id p)) eqn:Ec.
+    + exfalso. apply bytes_eqb_eq in Ec. subst c.
+      destruct (Hdk _ _ Hd) as (n' & Hf' & _). destruct (Hdo _ _ Hd) as (Hk & _).
+      rewrite Hk, Hnone in Hf'. discriminate.
+    + assert (Hrel' : relevant st h c = true).
+      { revert Hrel. unfold relevant. rewrite rootid_set_party, get_set_same. cbn [upd_node pt_nodes].
+        rewrite bfind_bput. destruct (bytes_eqb (rootid st) (lp_id p)) eqn:Er; [|auto].
+        apply bytes_eqb_eq in Er. cbn [newest n_hist hd_error]. unfold locks. rewrite Hl. cbn [existsb].
+        rewrite orb_false_r. intro X. apply bytes_eqb_eq in X. subst c. rewrite Er, bytes_eqb_refl in Ec. discriminate. }
+      eapply Hfin; eauto.
+  - (* enable *)
+    destruct H as (_ & n0 & cur & rest & Hf0 & Hh & Hfr & _ & Hg & Hr & ->).
+    destruct (good_succ_facts _ _ _ Hg) as (_ & _ & Nf & _).
+    intros c n d t Hf Hrel Hd Hle Hn. rewrite get_set_same in Hf. cbn [upd_node pt_nodes] in Hf.
+    rewrite bfind_bput in Hf.
+    assert (RelOld : forall c',
+              relevant (set_party st h (upd_node (get_party st h) (st_id s) (mkNode (n_params n0) (s :: n_hist n0) false))) h c' = true ->
+              relevant st h c' = true \/ bfind (l_disp (s_L st)) c' = None).
+    { intros c'. unfold relevant. rewrite rootid_set_party, get_set_same. cbn [upd_node pt_nodes].
+      rewrite bfind_bput. destruct (bytes_eqb c' (rootid st)) eqn:Ecr; [auto|]. cbn [orb].
+      destruct (bytes_eqb (rootid st) (st_id s)) eqn:Er; [|auto].
+      apply bytes_eqb_eq in Er. cbn [newest n_hist hd_error]. intro Lk.
+      rewrite <- Er in Hf0. rewrite Hf0. unfold newest. rewrite Hh. cbn [hd_error].
+      destruct (locks cur c') eqn:Lc; [auto|]. right.
+      rewrite <- Er, bytes_eqb_refl in Hr. unfold root_succ_ok in Hr. rewrite forallb_forall in Hr.
+      destruct (locks_exists _ _ Lk) as (l & Hl & <-). specialize (Hr _ Hl).
+      apply andb_true_iff in Hr as [_ Hr]. unfold fresh_lock_ok in Hr. rewrite Lc in Hr. cbn [orb] in Hr.
+      destruct (bfind (l_disp (s_L st)) (sa_id l)); [discriminate|reflexivity]. }
+    destruct (bytes_eqb c (st_id s)) eqn:Ec.
+    + (* the node that grew: its window cannot be closed *)
+      exfalso. apply bytes_eqb_eq in Ec. subst c. injection Hf as <-.
+      destruct (RelOld (st_id s) Hrel) as [Hrel'|Hno]; [|rewrite Hno in Hd; discriminate].
+      assert (Hn0 : newest n0 = Some cur) by (unfold newest; rewrite Hh; reflexivity).
+      destruct (Hfin _ _ _ _ Hf0 Hrel' Hd Hle Hn0) as (_ & [Fr|Fi]); congruence.
+    + destruct (RelOld c Hrel) as [Hrel'|Hno];
+        [eapply Hfin; eauto|rewrite Hno in Hd; discriminate].
+  - (* freeze *)
+    destruct H as (_ & n0 & Hf0 & ->).
+    intros c' n d t Hf Hrel Hd Hle Hn. rewrite get_set_same in Hf. cbn [upd_node pt_nodes] in Hf.
+    rewrite bfind_bput in Hf.
+    assert (Hrel' : relevant st h c' = true).
+    { revert Hrel. unfold relevant. rewrite rootid_set_party, get_set_same. cbn [upd_node pt_nodes].
+      rewrite bfind_bput. destruct (bytes_eqb (rootid st) c) eqn:Er; [|auto].
+      apply bytes_eqb_eq in Er. subst c. rewrite Hf0. auto. }
+    destruct (bytes_eqb c' c) eqn:Ec.
+    + apply bytes_eqb_eq in Ec. subst c'. injection Hf as <-.
+      destruct (Hfin _ _ _ _ Hf0 Hrel' Hd Hle Hn) as (E1 & _). split; [exact E1|left; reflexivity].
+    + eapply Hfin; eauto.
+Qed.
+
+(* I8: a concluded ledger channel has all sub-channels of the concluded state concluded *)
+Lemma step_op_root st e o : step_op st e = Some o ->
+  (forall p s m, o = LConclude p s m -> lp_id p = rootid st) /\ (forall p t, o = LConcludeFinal p t -> lp_id p = rootid st).
+Proof.
+  intro H. destruct e; cbn [step_op] in H; try discriminate;
+    try (injection H as <-; split; intros; try discriminate; match goal with X : _ = _ |- _ => injection X as <-; reflexivity end).
+  - destruct (newest_tree st i); [|discriminate]. injection H as <-. split; intros; discriminate.
+  - destruct (newest_tree st i) as [tr|]; [|discriminate]. injection H as <-. unfold conclude_op.
+    destruct (_ && _ && _); split; intros; try discriminate;
+      match goal with X : _ = _ |- _ => injection X as <-; reflexivity end.
+Qed.
+
+Lemma tree_concluded_sstep st e st' :
+  tree_concluded (l_disp (s_L st)) (rootid st) -> step_spec st e st' ->
+  tree_concluded (l_disp (s_L st')) (rootid st').
+Proof.
+  intros Ht H. rewrite (step_ledger _ _ _ H).
+  assert (Hr : rootid st' = rootid st) by (unfold rootid; destruct (step_static _ _ _ H) as (-> & _); reflexivity).
+  rewrite Hr. destruct (step_op st e) as [o|] eqn:Eo; [|exact Ht].
+  destruct (step_op_root _ _ _ Eo) as [R1 R2].
+  apply tree_concluded_step; auto. eapply step_op_not_progress; eauto.
+Qed.
+
+(* ================= runs ================= *)
+Record inv04 (st : sstate) (h : N) : Prop := mkInv04 {
+  i_ok0 : nodes_ok st 0; i_ok1 : nodes_ok st 1; i_disp : disp_ok st; i_known : disp_known st h;
+  i_fin : finished st h; i_tree : tree_concluded (l_disp (s_L st)) (rootid st) }.
+
+Lemma nodes_ok_any st i : nodes_ok st 0 -> nodes_ok st 1 -> nodes_ok st i.
+Proof. intros Ok0 Ok1 c n. unfold get_party. destruct (i =? 0); [apply Ok0|apply Ok1]. Qed.
+
+Lemma inv04_step st e st' r h : inv04 st h -> adv_event h e = true -> sstep st e = Some (st', r) -> inv04 st' h.
+Proof.
+  intros [Ok0 Ok1 Hd Hk Hf Ht] Ha H. apply sstep_spec in H.
+  pose proof (nodes_ok_any st h Ok0 Ok1) as Okh.
+  constructor.
+  - eapply nodes_ok_step; eauto.
+  - eapply nodes_ok_step; eauto.
+  - eapply disp_ok_step; eauto.
+  - eapply disp_known_step; eauto.
+  - eapply finished_step; eauto.
+  - eapply tree_concluded_sstep; eauto.
+Qed.
+
+Lemma inv04_init rootp assets agree accts acc h : inv04 (sinit rootp assets agree accts acc) h.
+Proof.
+  constructor.
+  - intros c n H. cbn in H. discriminate H.
+  - intros c n H. cbn in H. discriminate H.
+  - intros id d H. cbn in H. discriminate H.
+  - intros id d H. cbn in H. discriminate H.
+  - intros c n d t H. unfold get_party, sinit in H. destruct (h =? 0); cbn in H; discriminate H.
+  - intros d H. cbn in H. discriminate H.
+Qed.
+
+Lemma inv04_run h : forall es st st', inv04 st h -> adversarial_run h es = true -> srun st es = Some st' -> inv04 st' h.
+Proof.
+  induction es as [|e es IH]; intros st st' Hi Ha Hr; cbn [srun] in Hr.
+  - injection Hr as <-. exact Hi.
+  - rewrite adversarial_run_forall in Ha. cbn [forallb] in Ha. apply andb_true_iff in Ha as [Ha1 Ha2].
+    destruct (sstep st e) as [[st1 r]|] eqn:E; [|discriminate].
+    eapply IH; [eapply inv04_step; eauto|exact Ha2|exact Hr].
+Qed.
+
+(* ================= C04, the dispute part ================= *)
+(* (1) when the refutation window of a channel that matters to the honest participant h is closed, the state
+   registered for it is h's newest agreed state of that channel, and h agrees to no further state of it *)
+Theorem refutation_in_time rootp assets agree accts acc h es st :
+  adversarial_run h es = true -> srun (sinit rootp assets agree accts acc) es = Some st ->
+  forall c n d t, bfind (pt_nodes (get_party st h)) c = Some n -> relevant st h c = true ->
+    bfind (l_disp (s_L st)) c = Some d -> d_timeout d <= l_clock (s_L st) -> newest n = Some t ->
+    d_state d = t /\ (n_frozen n = true \/ st_final t = true).
+Proof.
+  intros Ha Hr. pose proof (inv04_run h es _ _ (inv04_init _ _ _ _ _ h) Ha Hr) as I. exact (i_fin _ _ I).
+Qed.
+
+Lemma node_has_newest st k c n : nodes_ok st k -> bfind (pt_nodes (get_party st k)) c = Some n -> exists t, newest n = Some t.
+Proof.
+  intros Ok Hf. destruct (Ok _ _ Hf) as (_ & K2 & _). unfold newest.
+  destruct (n_hist n) as [|x r]; [destruct K2|]. cbn [hd_error]. eauto.
+Qed.
+
+(* (2) whatever the ledger channel is concluded on is h's newest tree: the newest ledger state and, for every
+   sub-allocation locked in it, the newest state of that sub-channel, registered and concluded together *)
+Theorem concluded_is_newest rootp assets agree accts acc h es st :
+  adversarial_run h es = true -> srun (sinit rootp assets agree accts acc) es = Some st ->
+  forall d, bfind (l_disp (s_L st)) (rootid st) = Some d -> d_phase d = DConcluded ->
+  exists rn, bfind (pt_nodes (get_party st h)) (rootid st) = Some rn /\ newest rn = Some (d_state d)
+    /\ (n_frozen rn = true \/ st_final (d_state d) = true)
+    /\ forall l, In l (al_locked (st_alloc (d_state d))) ->
+         exists n dl, bfind (pt_nodes (get_party st h)) (sa_id l) = Some n
+           /\ bfind (l_disp (s_L st)) (sa_id l) = Some dl /\ d_phase dl = DConcluded
+           /\ newest n = Some (d_state dl) /\ (n_frozen n = true \/ st_final (d_state dl) = true).
+Proof.
+  intros Ha Hr d Hd Hc.
+  pose proof (inv04_run h es _ _ (inv04_init _ _ _ _ _ h) Ha Hr) as [Ok0 Ok1 Hdo Hdk Hfin Htr].
+  pose proof (nodes_ok_any st h Ok0 Ok1) as Okh.
+  destruct (Hdk _ _ Hd) as (rn & Hrn & _ & _). destruct (Hdo _ _ Hd) as (Hid & Hto & _). rewrite Hid in Hrn.
+  destruct (node_has_newest _ _ _ _ Okh Hrn) as [t Ht].
+  assert (Rel : relevant st h (rootid st) = true) by (unfold relevant; rewrite bytes_eqb_refl; reflexivity).
+  destruct (Hfin _ _ _ _ Hrn Rel Hd (Hto Hc) Ht) as (E & Nm). subst t.
+  exists rn. split; [exact Hrn|]. split; [exact Ht|]. split; [exact Nm|].
+  intros l Hl. destruct (Htr _ Hd Hc _ Hl) as (dl & Hdl & Hcl).
+  destruct (Hdk _ _ Hdl) as (n & Hn & _ & _). destruct (Hdo _ _ Hdl) as (Hidl & Htol & _). rewrite Hidl in Hn.
+  destruct (node_has_newest _ _ _ _ Okh Hn) as [tl Htl].
+  assert (Rell : relevant st h (sa_id l) = true).
+  { unfold relevant. rewrite Hrn, Ht. unfold locks. apply orb_true_iff. right.
+    apply existsb_exists. exists l. split; [exact Hl|apply bytes_eqb_refl]. }
+  destruct (Hfin _ _ _ _ Hn Rell Hdl (Htol Hcl) Htl) as (El & Nml). subst tl.
+  exists n, dl. auto.
+Qed.
